@@ -37,7 +37,7 @@ pub struct Attach {
 //@@ type file=fe2o3-amqp/src/link/state.rs kind=enum name=LinkState
 //@@ end
 pub open spec fn terminus_cond_r(e: ReceiverAttachError) -> bool {
-    e is SourceAddressIsNoneWhenDynamicIsTrue || e is TargetAddressIsSomeWhenDynamicIsTrue || e is DynamicNodePropertiesIsSomeWhenDynamicIsFalse
+    e is SourceAddressIsNoneWhenDynamicIsTrue || e is TargetAddressIsSomeWhenDynamicIsTrue || e is DynamicNodePropertiesIsSomeWhenDynamicIsFalse || e is DesiredFilterNotSupported
 }
 //@@ type file=fe2o3-amqp/src/link/error.rs kind=enum name=ReceiverAttachError
 //@@ subst `definitions::Error` => `AmqpError` rule=R11
